@@ -17,6 +17,11 @@ KINDS = {
     "map": "{k: v}", "emptymap": "{}", "nested": "[[{a: [1]}]]", "ts": "2001-12-14t21:59:43.10-05:00", "bin": "!!binary aGk=",
     "tagstr": "!!str 12", "tagint": "!!int \"12\"", "inf": ".inf", "big": "18446744073709551616", "long": "\"" + "n" * 400 + "\"",
     "alias": "*anc", "pct": "\"%\"", "at": "\"@\"", "bang": "\"!value \"",
+    # strings on the boundary of a prefix / suffix / marker rule (a validator that looks one character past them must not fall off the end)
+    "sMust": "\"Must\"", "sMus": "\"Mus\"", "sM": "\"M\"", "sInContext": "\"InContext\"", "sMustInContext": "\"MustInContext\"", "sGet": "\"Get\"", "sStar": "\"*\"", "sStar2": "\"**\"",
+    "sAmp": "\"&\"", "sBangValue": "\"!value\"", "sBangTagged": "\"!tagged\"", "sBangTaggedSp": "\"!tagged \"", "sDollar": "\"$\"", "sGontainer": "\"$gontainer\"", "sDot": "\".\"", "sQuote": "\"\\\"\"",
+    "sQuotes": "\"\\\"\\\"\"", "sQDot": "\"\\\".\\\"\"", "sQDotDot": "\"\\\".\\\".\"", "sTrailDot": "\"a.\"", "sLeadDot": "\".a\"", "sDash": "\"-\"", "sUnder": "\"_\"", "sZero": "\"0\"", "sSpace": "\" \"", "sPct2": "\"%%\"",
+    "sPctOpen": "\"%a\"", "sFnOpen": "\"%env(\"", "sFnEmpty": "\"%env()%\"", "sFnNoName": "\"%()%\"", "sSlash": "\"/\"", "sBrace": "\"{}\"", "sAmpBrace": "\"&{}\"", "sPtrDot": "\"*.\"", "sNewline": "\"\\n\"",
     "mbtoken": "\"%" + "ą" * 18 + "%\"", "mbfn": "\"%env(\\\"" + "ŻÓŁĆ_GĘŚLĄ_" * 4 + "\\\")%\"", "mbname": "\"" + "ż" * 40 + "\"", "mbref": "\"@" + "ó" * 20 + "\"",
 }
 
@@ -59,9 +64,11 @@ EXTRA_POS = {  # positions inside maps/lists addressed by giving the whole conta
 
 
 def expand(text, overrides):
+    """replace the @@position@@ markers, an override taking precedence over the default of the same position at every nesting level"""
     for _ in range(12):
         changed = False
-        for k, v in list(overrides.items()) + list(DEFAULTS.items()):
+        for k in list(DEFAULTS) + [k for k in overrides if k not in DEFAULTS]:
+            v = overrides[k] if k in overrides else DEFAULTS[k]
             if v is not None and "@@%s@@" % k in text:
                 text = text.replace("@@%s@@" % k, v)
                 changed = True
@@ -133,6 +140,9 @@ def run(tier, seed, replay):
     common.proof_part(out, env, "C12", ties=["Tie/SitesPanicTie.v", "Tie/EnvTie.v"])
     common.sites_report(out, tooldir, ("panic-site",))
     cases = matrix()
+    if len(set(t for _, t in cases)) * 10 < len(cases) * 9:
+        # (until round h of the seeded changes the overrides of nested positions were silently replaced by their defaults)
+        out.broke("harness: the C12 type-confusion matrix is degenerate", "%d cases, %d distinct texts" % (len(cases), len(set(t for _, t in cases))))
     specs = []
     for name, text in cases:
         for fl in (({}, {"stub": True}) if tier == "thorough" else ({},)) + (({"ignore_services": True}, {"ignore_services": True, "ignore_params": True}) if name.startswith("dangling-from-") else ()):
